@@ -153,10 +153,8 @@ def maxRuleIDs : Int := 32
 def helperMapLookupElem : Int := 1
 def helperTailCall : Int := 12
 
-/-- Go `int32(x)` of a non-negative number. -/
-def toInt32 (n : Nat) : Int :=
-  let m := n % 4294967296
-  if m < 2147483648 then (m : Int) else (m : Int) - 4294967296
+/-- Go `int32(x)` of a non-negative number (two's complement truncation). -/
+def toInt32 (n : Nat) : Int := (BitVec.ofNat 32 n).toInt
 
 /-- Go `uint8(x)` of an int32. -/
 def toUint8 (n : Int) : Int := n % 256
@@ -325,11 +323,15 @@ def icmpMatch (rid : Nat) (negate : Bool) : Icmp → List Ev
   | .typeCode t c => icmpTypeCodeMatch rid negate (toUint8 t) (toUint8 c)
 
 /-- `bits.ReverseBytes32`. -/
-def rev32 (n : Nat) : Nat :=
-  (n % 256) * 16777216 + (n / 256 % 256) * 65536 + (n / 65536 % 256) * 256 + (n / 16777216 % 256)
+def rev32bv (x : BitVec 32) : BitVec 32 :=
+  x.extractLsb' 0 8 ++ x.extractLsb' 8 8 ++ x.extractLsb' 16 8 ++ x.extractLsb' 24 8
+
+def rev32 (n : Nat) : Nat := (rev32bv (BitVec.ofNat 32 n)).toNat
 
 /-- The 32-bit network mask of a prefix length (`MaxUint32 << (32 - p)` in uint32). -/
-def mask32 (p : Nat) : Nat := if p ≥ 32 then 4294967295 else 4294967295 - (2 ^ (32 - p) - 1)
+def mask32bv (p : Nat) : BitVec 32 := BitVec.allOnes 32 <<< (32 - p)
+
+def mask32 (p : Nat) : Nat := (mask32bv p).toNat
 
 /-- Mask of 32-bit word `w` (0 = most significant) of a 128-bit prefix mask. -/
 def mask128Word (p w : Nat) : Nat :=
@@ -341,10 +343,10 @@ def word128 (a w : Nat) : Nat := a / 2 ^ (32 * (3 - w)) % 4294967296
 /-- Per-CIDR instructions of `writeCIDRSMatch`, IPv4 branch. The address is
 masked first (`ip.CIDRFromIPNet` canonicalises). -/
 def cidrV4 (leg : Leg) (onMatch : Label) (n : Net) : List Ev :=
-  let m := mask32 n.pfx
-  let a := Nat.land (n.addr % 4294967296) m
-  [load32 R1 R9 leg.ipOff, movImm32 R2 (toInt32 (rev32 m)), and32 R2 R1,
-   jumpEqImm32 R2 (toInt32 (rev32 a)) onMatch]
+  let m := mask32bv n.pfx
+  let a := BitVec.ofNat 32 n.addr &&& m
+  [load32 R1 R9 leg.ipOff, movImm32 R2 (rev32bv m).toInt, and32 R2 R1,
+   jumpEqImm32 R2 (rev32bv a).toInt onMatch]
 
 /-- The section loop of `writeCIDRSMatch`, IPv6 branch: sections `s..3`. -/
 def cidrV6Sections (leg : Leg) (rid idx : Nat) (a p : Nat) : Nat → Nat → List Ev × Nat
@@ -381,7 +383,10 @@ def cidrsMatch (v6 : Bool) (rid part : Nat) (negate : Bool) (leg : Leg) (nets : 
       [.ev (jump (.ruleNoMatch rid)), .ev (.label (.rulePart rid part))], part + 1)
 
 /-- Go `bits.ReverseBytes64`. -/
-def rev64 (n : Nat) : Nat := rev32 (n % 4294967296) * 4294967296 + rev32 (n / 4294967296 % 4294967296)
+def rev64bv (x : BitVec 64) : BitVec 64 :=
+  rev32bv (x.extractLsb' 0 32) ++ rev32bv (x.extractLsb' 32 32)
+
+def rev64 (n : Nat) : Nat := (rev64bv (BitVec.ofNat 64 n)).toNat
 
 /-- `setUpIPSetKey` followed by the map lookup call (common to all IP-set matches). -/
 def ipSetLookup (c : Cfg) (id : Nat) (leg : Leg) : List Ev :=
